@@ -27,7 +27,7 @@ def main():
                     code, results = check_mod.run_property(p, tmp, "quick", write=False, quiet=True)
                 for x in results:
                     if x.status == "VIOLATED" and not x.known:
-                        alarms.append(f"{x.obligation} {x.function} ({x.where}): {x.reason[:220]}")
+                        alarms.append(f"{x.obligation} {x.function} ({x.where}): {x.reason[:int(os.environ.get("RP_W", "220"))]}")
                     elif x.status == "UNDECIDED":
                         und.append(f"{x.obligation} {x.function}: {x.reason[:140]}")
             bad += bool(alarms)
